@@ -2,6 +2,7 @@
 
 use vh::report::*;
 
+mod c05;
 mod c09;
 mod c20;
 mod util;
@@ -14,6 +15,7 @@ fn main() {
     }
     let mut rep = Report::new(&cli, "model_checking");
     let (level, (cov, viol)) = match cli.prop.as_str() {
+        "C05" => ("model_checking", c05::run(&cli)),
         "C09" => ("model_checking", c09::run(&cli)),
         "C20" => ("model_checking", c20::run(&cli)),
         _ => machinery_error("simnet serves C09"),
